@@ -48,6 +48,13 @@ def mini_streets(min_bet: Any, hole: int = 2) -> tuple:
     )
 
 
+def _fold_name(asked: dict, i: int) -> str:
+    # a seat can be asked again (a short opening shove re-opened by a bigger call is not a raise, but a
+    # second betting round can follow when nobody is all-in yet): keep the symbol names unique
+    asked[i] = asked.get(i, 0) + 1
+    return f'fold{i}' if asked[i] == 1 else f'fold{i}x{asked[i]}'
+
+
 def h_showdown(ctx: Any, n: int, depth: int, hilo: bool = False, boards: int = 1,
                mode: str = 'T', shape: str = 'free', deck: str = 'identity',
                levels: int = 0, trim: bool = True, ante: int = 0, part: Any = None,
@@ -94,6 +101,7 @@ def h_showdown(ctx: Any, n: int, depth: int, hilo: bool = False, boards: int = 1
         if shape == 'allin':
             # first actor shoves, everybody else calls or folds by a symbolic bit
             first = True
+            asked: dict = {}
             while at_decision(st):
                 if first:
                     first = False
@@ -102,7 +110,7 @@ def h_showdown(ctx: Any, n: int, depth: int, hilo: bool = False, boards: int = 1
                                st.max_completion_betting_or_raising_to_amount)
                     else:
                         C.call(ctx, st.check_or_call)
-                elif st.can_fold() and ctx.flag(f'fold{st.actor_index}'):
+                elif st.can_fold() and ctx.flag(_fold_name(asked, st.actor_index)):
                     C.call(ctx, st.fold)
                 else:
                     C.call(ctx, st.check_or_call)
